@@ -3,6 +3,7 @@ import TonicModel.Spec.Health
 import TonicModel.Lemmas.HealthSpec
 import TonicModel.Lemmas.Health
 import TonicModel.Basic.HealthLin
+import TonicModel.Lemmas.HealthLin
 /-
 C18 — Health service reports the latest status to Check and Watch.
 Property theorems only; helper lemmas live in `Lemmas/Health*.lean`.
@@ -312,6 +313,16 @@ theorem C18_readonly_answers_keep_state (s : H) (op : Op)
       · rfl
     · rfl
 
+/-- The search is sound: whenever it answers "yes" for a recorded history — against the model
+(`Health.accept`) or against the property's clauses (`Spec.Health.accept`) — there is a
+schedule of the recorded calls that keeps every task's own order, never places a call before
+one that had returned before it was invoked, and along which the machine accepts every
+recorded answer (`Lin.Run`).  So an `ok` verdict on a concurrent history is never unfounded. -/
+theorem C18_linearization_search_sound {σ : Type} (acc : σ → Op → Resp → Option σ)
+    (nslots : σ → Nat) (s : σ) (ts : List Lin.Task)
+    (h : Lin.linearizable acc nslots s ts = .yes) : Lin.Run acc nslots s ts :=
+  Lin.linearizable_sound acc nslots s ts h
+
 /-! ## non-vacuity: the hypotheses above are met by concrete histories -/
 
 -- `set a NOT_SERVING; watch a; set a SERVING; clear a; set a UNKNOWN`: stream 0 is open, its
@@ -334,5 +345,20 @@ example : current (logOf [.set [97] .serving]) [97] = some .serving ∧
 -- hypotheses of `C18_watch_converges` / `C18_watch_then_silent` (open stream with a delivery)
 example : view (logOf [.watch [], .next 0, .set [] .notServing]) 0
     = some ⟨[], .serving, [(.set [] .notServing, .done), (.next 0, .value .serving)]⟩ := by decide
+-- a recorded concurrent history (writer: set a 1 during [2,5]; watcher: subscribed during [0,1],
+-- delivery of 1 recorded during [3,4]) is found linearizable against model and clauses
+example :
+    Lin.linearizable Health.accept (fun s => s.watchers.length)
+      (exec init [.set [97] .notServing])
+      [⟨[⟨.set [97] .serving, 2, 5, .done⟩], Lin.noSlot⟩,
+       ⟨[⟨.watch [97], 0, 1, .subscribed⟩, ⟨.next 0, 1, 4, .value .serving⟩], Lin.noSlot⟩] = .yes := by
+  decide
+-- … and one in which the watcher's delivery had returned before the set was invoked is not
+example :
+    Lin.linearizable Health.accept (fun s => s.watchers.length)
+      (exec init [.set [97] .notServing])
+      [⟨[⟨.set [97] .serving, 5, 6, .done⟩], Lin.noSlot⟩,
+       ⟨[⟨.watch [97], 0, 1, .subscribed⟩, ⟨.next 0, 1, 4, .value .serving⟩], Lin.noSlot⟩] = .no := by
+  decide
 
 end C18
